@@ -58,7 +58,7 @@ NEG = [
     ("KMGrid", "MC_KMGrid_neg_ge", None),
     ("KMZ0", "MC_KMZ0_neg_nowrap", "WindowIsCircular"),
     ("KMZ0", "MC_KMZ0_neg_onesided", None),
-    ("KMZ0", "MC_KMZ0_neg_wide", "WindowIsCircular"),
+    ("KMZ0", "MC_KMZ0_neg_wide", None),
     ("Profiles", "MC_Profiles_neg_nopsi", "WindAtZm"),
     ("Profiles", "MC_Profiles_neg_step", "GridIndex"),
     ("Profiles", "MC_Profiles_neg_norm", "WindAtZm"),
